@@ -36,6 +36,8 @@ NUMTYPES = ['int8', 'int16', 'int32', 'int64', 'uint8', 'uint16', 'uint32', 'uin
 
 def run(ctx):
     d1_keys(ctx)
+    from .C01 import type_gate_dominates
+    type_gate_dominates(ctx, 'D3')    # a refused overwrite leaves no 0-byte data file next to the old description
     d2_arrayorder(ctx)
     committer = find_committer(ctx)
     appenders = find_appenders(ctx)
